@@ -1005,7 +1005,9 @@ func (t *Topic) saveAndBroadcastMessage(msg *ClientComMessage, asUid types.Uid, 
 	t.lastID++
 	t.touched = msg.Timestamp
 
-	if userFound {
+	if userFound && markedReadBySender {
+		// The marks are cached only if they were saved: the sender has no 'R' permission
+		// or the update failed otherwise.
 		pud.readID = t.lastID
 		pud.recvID = t.lastID
 		t.perUser[asUid] = pud
